@@ -14,6 +14,8 @@ pub mod c03;
 pub mod c10;
 #[cfg(feature = "c13")]
 pub mod c13;
+#[cfg(feature = "c04")]
+pub mod c04;
 #[cfg(feature = "c05")]
 pub mod c05;
 #[cfg(feature = "c09")]
@@ -28,6 +30,8 @@ pub fn tables() -> Vec<&'static [(&'static str, fn())]> {
     v.push(c10::TABLE);
     #[cfg(feature = "c13")]
     v.push(c13::TABLE);
+    #[cfg(feature = "c04")]
+    v.push(c04::TABLE);
     #[cfg(feature = "c05")]
     v.push(c05::TABLE);
     #[cfg(feature = "c09")]
